@@ -2216,6 +2216,7 @@ int cg_node_family_write( const char* family_name, int* Fam)
         return CG_ERROR;
     }
     if( cgi_check_strlen( family_name ) ) return CG_ERROR;
+    if (cgi_check_mode(cg->filename, cg->mode, CG_MODE_WRITE)) return CG_ERROR;
 
     /* check for valid posit */
     if (posit == 0) {
